@@ -136,12 +136,15 @@ def main(argv=None):
     proof_ok = True
     if not args.no_proof:
         proof_ok, pinfo = proof_stage(pid, tier)
-    try:
-        for eng in spec["engines"]:
+    for eng in spec["engines"]:
+        try:
             eng(pid, tier, seed, res)
-    except Exception as e:  # harness failure = broken correspondence, never silently ignored
-        res.hit(pid, "divergence", "harness could not observe the implementation: %s: %s" % (type(e).__name__, e),
-                dict(kind="harness-broken", error=traceback.format_exc()))
+        except (KeyboardInterrupt, SystemExit):
+            raise
+        except BaseException as e:  # harness failure = broken correspondence, never silently ignored
+            # (BaseException: an implementation that cancels foreign tasks makes CancelledError surface here)
+            res.hit(pid, "divergence", "harness could not observe the implementation (%s): %s: %s" % (getattr(eng, "__name__", "engine"), type(e).__name__, e),
+                    dict(kind="harness-broken", error=traceback.format_exc()))
     known = load_known()
     violations = []
     known_lines = []
